@@ -446,12 +446,52 @@ def lift_where(e, depth=0):
     return ('where', w[1], lift_where(rebuild(e, path, w[2]), depth + 1), lift_where(rebuild(e, path, w[3]), depth + 1))
 
 
+def sort_bool(e):
+    """and / or are commutative and associative: operands flattened and put in a canonical order"""
+    if not isinstance(e, tuple) or not e or not isinstance(e[0], str) or e[0] in ('sym', 'num', 'nan', 'x'):
+        return e
+    if e[0] in ('and', 'or'):
+        ops = []
+
+        def flat(x):
+            if isinstance(x, tuple) and x and x[0] == e[0]:
+                flat(x[1])
+                flat(x[2])
+            else:
+                ops.append(sort_bool(x))
+        flat(e)
+        ops.sort(key=show)
+        r = ops[0]
+        for o in ops[1:]:
+            r = (e[0], r, o)
+        return r
+    out = [e[0]]
+    for c in e[1:]:
+        if isinstance(c, tuple) and c and isinstance(c[0], str):
+            out.append(sort_bool(c))
+        elif isinstance(c, tuple):
+            out.append(tuple(sort_bool(x) if isinstance(x, tuple) and x and isinstance(x[0], str) else
+                             (tuple(sort_bool(y) if isinstance(y, tuple) and y and isinstance(y[0], str) else y for y in x) if isinstance(x, tuple) else x)
+                             for x in c))
+        else:
+            out.append(c)
+    return tuple(out)
+
+
 def same(a, b, env=None):
     try:
         c = Canon()
-        return c.ratio(lift_where(parse(a, env))) == c.ratio(lift_where(parse(b, env)))
+        return c.ratio(sort_bool(lift_where(parse(a, env)))) == c.ratio(sort_bool(lift_where(parse(b, env))))
     except Exception:
         return False
+
+
+def split_where(e, conds=()):
+    """alternatives of an Expr with conditionals resolved: list of (conds, Expr without where)"""
+    e = lift_where(e)
+    if isinstance(e, tuple) and e and e[0] == 'where':
+        return split_where(e[2], conds + ((e[1], True),)) + split_where(e[3], conds + ((e[1], False),))
+    return [(list(conds), e)]
 
 
 def mentions(e, pred):
